@@ -230,6 +230,13 @@ func concCfg(prop string, cas int, tier string) ConcCfg {
 		c.NoCheck = true
 		c.OpsPer = 8
 		c.Hist = 12
+		if cas%4 == 1 {
+			c.AbortHammer = true
+			c.HalfFreed, c.FileFocus, c.Focus = false, false, false
+			c.OpsPer = 120
+			c.Hist = 4
+			c.Clients = 4
+		}
 	}
 	return c
 }
@@ -524,6 +531,11 @@ func propSpecs() map[string]PropSpec {
 			}
 			// also the sizes just below the minimum: they must be rejected, not half-accepted
 			mk(min-3, min, 0)
+			// disks with two and three block-bitmap blocks, filled completely
+			mk(32768+5+seed%7, 32768+6+seed%7, 1)
+			if tier == "thorough" {
+				mk(65536+3+seed%5, 65536+4+seed%5, 1)
+			}
 			for a := min; a < min+n; a += 25 {
 				mk(a, minU64(a+25, min+n), fill)
 			}
